@@ -144,6 +144,30 @@ pub fn gen_c07(o: &mut Out, tier: &str, seed: u64) {
             o.op("range64.sequence", &format!("vseq {}", seq.join(" ")));
         }
     }
+    // canonical decoding of every scalar field: the accepted instance with the group order added to one scalar that is
+    // below 2^248 (encoding just above the order, top byte 0x10)
+    {
+        let scalar_fields: [(&str, &[usize]); 9] = [("zero", &[64]), ("pubkey", &[32]), ("ctct", &[128, 160, 192]), ("ctcmt", &[96, 128, 160]),
+            ("val2", &[96, 128]), ("val3", &[128, 160]), ("bval2", &[96, 128]), ("bval3", &[128, 160]), ("cap", &[32, 64, 160, 192, 224])];
+        for (instr, offs) in scalar_fields {
+            for off in offs.iter() {
+                let f = ctx_len(instr) + off;
+                let mut make = || instance(&mut r, instr);
+                if let Some(m) = plus_ell_small(&mut make, f) {
+                    o.op_exp(&format!("{}.scalar-just-above-order", instr), "R", &format!("verify {} {}", instr, hex(&m)));
+                }
+            }
+        }
+        if let Some(b0) = range_instance(&mut r, 64) {
+            let plen = b0.len();
+            for f in [264 + 128, 264 + 160, 264 + 192, plen - 64, plen - 32] {
+                let mut make = || range_instance(&mut r, 64);
+                if let Some(m) = plus_ell_small(&mut make, f) {
+                    o.op_exp("range64.scalar-just-above-order", "R", &format!("verify range64 {}", hex(&m)));
+                }
+            }
+        }
+    }
     // same-length proof fields presented to a different instruction (with that instruction's own true context)
     let fam160 = ["val2", "bval2"];
     let fam192 = ["val3", "bval3", "ctcmt"];
